@@ -242,12 +242,34 @@ def t_names():
     return stats
 
 
+def t_long():
+    """many selectors / segments, large indices and slices, on arrays of 1000 elements, objects of 300 members, 101-deep documents"""
+    from ..gen import longq
+    stats = Stats()
+    n = 0
+    rng = random.Random(29)
+    docs = longq.long_docs()
+    extra = [("wild", ["q", "$", [["c", [["w"]]]]]), ("desc-wild", ["q", "$", [["d", [["w"]]]]]), ("desc-a", ["q", "$", [["d", [["n", "a"]]]]]),
+             ("a-wild", ["q", "$", [["c", [["n", "a"]]], ["c", [["w"]]]]]), ("rev", ["q", "$", [["c", [["s", None, None, -1]]]]]),
+             ("b-wild-b", ["q", "$", [["c", [["n", "b"]]], ["c", [["w"]]], ["c", [["n", "b"]]]]]), ("desc-idx-64", ["q", "$", [["d", [["i", 64], ["i", 65], ["i", -1]]]]]),
+             ("names-k", ["q", "$", [["c", [["n", "k%d" % i] for i in (0, 63, 64, 65, 128, 299, 300)]]]])]
+    for name, ast in longq.long_queries() + extra:
+        for j, doc in enumerate(docs):
+            text = Renderer(rng if (j % 2) else None).query(ast, top=True)
+            exp, _ = judge(stats, ast, doc, text, "long")
+            n += 1
+            if exp:
+                stats.nt("long", name, j)
+    stats.subspaces.append({"name": "72 long / large-number queries x 6 large or deep documents (1000-element array, 300-member object, depth 99)", "size": n, "exhaustive": True})
+    return stats
+
+
 # ------------------------------------------------------------------ interface
 
 
 def tasks(tier, seed):
     ts = [{"name": "slices-len%d" % L, "fn": "t_slices", "kw": {"length": L}} for L in range(0, 7)]
-    ts += [{"name": "indices", "fn": "t_indices"}, {"name": "kinds", "fn": "t_kinds"}, {"name": "names", "fn": "t_names"}]
+    ts += [{"name": "indices", "fn": "t_indices"}, {"name": "kinds", "fn": "t_kinds"}, {"name": "names", "fn": "t_names"}, {"name": "long", "fn": "t_long"}]
     n = 1500 if tier == "quick" else 30000
     for k in range(16):
         ts.append({"name": "random-%d" % k, "fn": "t_random",
